@@ -79,6 +79,8 @@ type World struct {
 	// LendQuery: the application is able to serve a mutation root although the universe's schema has none (the query
 	// root's node stands in): what keeps mutations from being executed is then the schema alone
 	LendQuery bool
+	// MapNodes: the Resolver objects are values of named map types (one per object type), registered with RegisterType
+	MapNodes bool
 }
 
 // OfferMutation loads a document that defines a type Mutation and is refused by validation.
@@ -424,6 +426,9 @@ func (w *World) node(id string) interface{} {
 	switch st {
 	case Iface:
 		n = &resNode{w: w, id: id}
+		if w.MapNodes {
+			n = newMapNode(w, id)
+		}
 		if id == w.WrapNode && id != "" {
 			n = wrapNode{}
 		}
@@ -880,6 +885,84 @@ func (r *rootRes) Resolve(field *ggql.Field, args map[string]interface{}) (inter
 type resNode struct {
 	w  *World
 	id string
+}
+
+// Map nodes: an application whose objects are not structs but named MAP types that implement ggql.Resolver, one Go type
+// per object type, registered with Root.RegisterType (so that the concrete type under interface and union typed
+// fields is known, as for structs).
+type (
+	mapQuery    map[string]interface{}
+	mapMutation map[string]interface{}
+	mapA        map[string]interface{}
+	mapB        map[string]interface{}
+	mapC        map[string]interface{}
+	mapP        map[string]interface{}
+)
+
+func resolveMap(m map[string]interface{}, field *ggql.Field, args map[string]interface{}) (interface{}, error) {
+	return m["w"].(*World).resolveVia("iface", m["id"].(string), field, args)
+}
+
+func (m mapQuery) Resolve(f *ggql.Field, a map[string]interface{}) (interface{}, error) {
+	return resolveMap(m, f, a)
+}
+func (m mapMutation) Resolve(f *ggql.Field, a map[string]interface{}) (interface{}, error) {
+	return resolveMap(m, f, a)
+}
+func (m mapA) Resolve(f *ggql.Field, a map[string]interface{}) (interface{}, error) {
+	return resolveMap(m, f, a)
+}
+func (m mapB) Resolve(f *ggql.Field, a map[string]interface{}) (interface{}, error) {
+	return resolveMap(m, f, a)
+}
+func (m mapC) Resolve(f *ggql.Field, a map[string]interface{}) (interface{}, error) {
+	return resolveMap(m, f, a)
+}
+func (m mapP) Resolve(f *ggql.Field, a map[string]interface{}) (interface{}, error) {
+	return resolveMap(m, f, a)
+}
+
+func mapSample(tn string, w *World, id string) interface{} {
+	m := map[string]interface{}{"w": w, "id": id}
+	switch tn {
+	case "Query":
+		return mapQuery(m)
+	case "Mutation":
+		return mapMutation(m)
+	case "A":
+		return mapA(m)
+	case "B":
+		return mapB(m)
+	case "C":
+		return mapC(m)
+	case "P":
+		return mapP(m)
+	}
+	return nil
+}
+
+func newMapNode(w *World, id string) interface{} {
+	if n := mapSample(w.U.NodeType[id], w, id); n != nil {
+		return n
+	}
+	return &resNode{w: w, id: id}
+}
+
+// NewMapWorld is the Resolver-object world with map nodes.
+func NewMapWorld(u *Universe, lm ListMode) (*World, error) {
+	w, err := NewWorld(u, Iface, lm)
+	if err != nil {
+		return nil, err
+	}
+	w.MapNodes = true
+	for tn := range u.Types {
+		if sample := mapSample(tn, w, ""); sample != nil {
+			if err = w.Root.RegisterType(sample, tn); err != nil {
+				return nil, err
+			}
+		}
+	}
+	return w, nil
 }
 
 func (n *resNode) Resolve(field *ggql.Field, args map[string]interface{}) (interface{}, error) {
